@@ -1,7 +1,7 @@
 #!/usr/bin/env python3
 """Confirms a sub-agent's seeded change in a scratch worktree and files it under /verif/seeded/.
 
-usage: confirm_mutant.py <prop> <n> [--src /tmp/wt/<prop>-out]
+usage: confirm_mutant.py <prop> <n> [--src /tmp/wt/<prop>-out] [--as <number to file it under>]
 
 Checks, in a fresh git worktree of /repo's HEAD (removed afterwards):
   1. the patch applies and `go build ./...` + `go vet ./...` succeed;
@@ -16,10 +16,13 @@ prop, n = sys.argv[1], sys.argv[2]
 src = f"/tmp/wt/{prop}-out"
 if "--src" in sys.argv:
     src = sys.argv[sys.argv.index("--src") + 1]
+as_n = n
+if "--as" in sys.argv:
+    as_n = sys.argv[sys.argv.index("--as") + 1]
 patch = f"{src}/mut{n}.diff"
 demo = f"{src}/demo{n}_test.go"
 notes = f"{src}/notes{n}.md"
-wt = f"/tmp/cm/{prop}-{n}"
+wt = f"/tmp/cm/{prop}-{n}-{os.getpid()}"
 env = dict(os.environ, GOFLAGS="-mod=mod", GOPROXY="off")
 env.pop("GOSUMDB", None); env.pop("GOTOOLCHAIN", None)
 
@@ -70,7 +73,7 @@ try:
           and res["demo_with_change"] == "FAIL" and res["demo_without_change"] == "pass")
     res["confirmed"] = ok
     if ok:
-        d = f"/verif/seeded/{prop}-{n}"
+        d = f"/verif/seeded/{prop}-{as_n}"
         os.makedirs(d, exist_ok=True)
         shutil.copy(patch, f"{d}/patch.diff")
         shutil.copy(demo, f"{d}/demo_test.go.txt")
@@ -94,5 +97,5 @@ try:
 finally:
     subprocess.run(f"git -C /repo worktree remove --force {wt}", shell=True)
     os.makedirs("/tmp/cm/results", exist_ok=True)
-    json.dump(res, open(f"/tmp/cm/results/{prop}-{n}.json", "w"), indent=1)
+    json.dump(res, open(f"/tmp/cm/results/{prop}-{as_n}.json", "w"), indent=1)
     print(json.dumps({k: v for k, v in res.items() if not k.endswith("_tail")}))
